@@ -512,7 +512,7 @@ func Run(opts *Options) (int, error) {
 							}
 						}
 						if verifOn {
-							verifCoord("searchfin", "n", val.Length(), "final", val.final)
+							verifCoord("searchfin", "n", val.Length())
 						}
 						terminal.UpdateList(val)
 					}
